@@ -685,9 +685,14 @@ fn delegate() -> ! {
         let cfg = std::fs::read_to_string(src.join(".cargo/config.toml")).unwrap().replace("/verif/.build/cargo-nostd", target.to_str().unwrap());
         std::fs::write(local.join(".cargo/config.toml"), cfg).unwrap();
     }
-    let cfg = std::fs::read_to_string(local.join(".cargo/config.toml")).unwrap_or_default();
-    let target = cfg.lines().find(|l| l.trim_start().starts_with("target-dir")).and_then(|l| l.split('"').nth(1)).unwrap_or("target").to_string();
-    let out = Command::new("cargo").args(["build", "--offline", "--release", "--bin", "c11_nostd"]).current_dir(&local).env("CARGO_NET_OFFLINE", "true").output()
+    // the target directory is passed explicitly so that a copy of /verif living elsewhere builds into ITS OWN .build
+    let target: String = if local.parent().map_or(false, |r| r.join("check").exists()) {
+        local.parent().unwrap().join(".build").join("cargo-nostd").to_string_lossy().into_owned()
+    } else {
+        let cfg = std::fs::read_to_string(local.join(".cargo/config.toml")).unwrap_or_default();
+        cfg.lines().find(|l| l.trim_start().starts_with("target-dir")).and_then(|l| l.split('"').nth(1)).unwrap_or("target").to_string()
+    };
+    let out = Command::new("cargo").args(["build", "--offline", "--release", "--bin", "c11_nostd"]).current_dir(&local).env("CARGO_NET_OFFLINE", "true").env("CARGO_TARGET_DIR", &target).output()
         .unwrap_or_else(|e| fail(e.to_string()));
     if !out.status.success() { fail(format!("cargo build failed:\n{}", String::from_utf8_lossy(&out.stderr))); }
     let bin = Path::new(&target).join("release").join("c11_nostd");
